@@ -735,7 +735,7 @@ impl YaccParser<'_> {
                 i = k;
             } else if self.lookahead_is("{", i).is_some() {
                 let pos_action_start = i + 1;
-                pos_prod_end = Some(i);
+                pos_prod_end.get_or_insert(i);
                 // With j the location of the right brace, i the location of the left brace.
                 let (j, a) = self.parse_action(i)?;
                 i = self.parse_ws(j, true)?;
